@@ -9,7 +9,7 @@ set_option linter.unusedSectionVars false
 set_option linter.unusedSimpArgs false
 
 namespace Anko
-variable [FOps]
+variable [FOps] [Prov]
 
 /-! ### helpers preserve `cur` -/
 @[local simp] theorem St.fail_cur (s : St) (m : String) : (s.fail m).cur = s.cur := rfl
